@@ -353,9 +353,13 @@ def gen_cases(ctx):
                 yield dict(set='core', atoms=idx, stack=stack, kind=kind, prefix='multi')
     for integration in ('aiohttp', 'flask'):
         for base in ('/api', '/api/v1', '/rpc'):
-            for layout in ('main', 'endpoint', 'two-endpoints', 'container') + (('child',) if integration == 'aiohttp' else ()):
+            # (flask cannot serve two specifications at all - both rules get the endpoint name '_generate_spec' and init_app raises;
+            #  that is outside the properties, see DESIGN.md section 9)
+            for layout in ('main', 'endpoint', 'two-endpoints', 'container') + (('child', 'two-specs') if integration == 'aiohttp' else ('mounted',)):
                 for kind in ('openapi', 'openrpc'):
                     yield dict(set='served', integration=integration, base=base, layout=layout, kind=kind)
+                    if layout == 'two-specs':
+                        yield dict(set='served', integration=integration, base=base, layout=layout, kind=kind, first=False)
     xs = list(range(len(CORE), len(COREX)))
     for stack in ('pydantic', 'docstring', 'docstring+pydantic', 'default'):
         for kind in KINDS:
@@ -553,7 +557,14 @@ def run_served(case, rec):
         spec = openrpc.OpenRPC(info=openrpc.Info(title='t', version='1'), schema_extractor=PydanticSchemaExtractor())
     else:
         spec = openapi.OpenAPI(info=openapi.Info(title='t', version='1'), schema_extractors=[PydanticSchemaExtractor()])
-    integ = Integration(kind, base, spec=spec)
+    mount = '/mnt' if layout == 'mounted' else ''
+    if layout == 'two-specs':
+        # both kinds of document served by one application: the one under test is given first or last
+        other = (openapi.OpenAPI(info=openapi.Info(title='o', version='1'), schema_extractors=[PydanticSchemaExtractor()]) if speckind == 'openrpc'
+                 else openrpc.OpenRPC(info=openrpc.Info(title='o', version='1'), schema_extractor=PydanticSchemaExtractor()))
+        integ = Integration(kind, base, spec=spec, specs=[other]) if case.get('first', True) else Integration(kind, base, spec=other, specs=[spec])
+    else:
+        integ = Integration(kind, base, spec=spec, mount=mount or None)
     is_async = kind == 'aiohttp'
 
     def mk(tag):
@@ -586,6 +597,8 @@ def run_served(case, rec):
         rpc.add_subapp('/sub', child)
         reg(child.dispatcher, base + '/sub/rpc2', ['beta', 'shared'])
     c = dict(case)
+    base = mount + base          # where the application really serves the extension
+    registered = {(mount + u, n): t for (u, n), t in registered.items()}
     rep = integ.get('%s/%s' % (base, spec.path.lstrip('/')))
     rec.transitions += 1
     if rep.raised or rep.status != 200:
@@ -596,6 +609,9 @@ def run_served(case, rec):
     except Exception as e:   # noqa
         rec.violation('C16:%s:served:document is not JSON' % speckind, c, expected='JSON', observed=repr(rep.body[:200]))
         return 'notjson'
+    if ('openrpc' in doc) != (speckind == 'openrpc') or ('openapi' in doc) != (speckind == 'openapi'):
+        rec.violation('C16:%s:served:the url of one specification serves another kind of document' % speckind, c, expected=speckind, observed=sorted(doc)[:6])
+        return 'wrongkind'
     if speckind == 'openrpc':
         documented = {(base, m.get('name')) for m in doc.get('methods', [])}
         want = {k for k in registered if k[0] == base}        # OpenRPC documents the endpoint it is served on
@@ -695,7 +711,7 @@ def replay(doc):
     from mc.core import Ctx, Recorder, jdump
     rec = Recorder()
     c = doc['case']
-    case = {k: c[k] for k in ('set', 'atoms', 'stack', 'kind', 'prefix', 'variant', 'sequence', 'late_error', 'alias', 'integration', 'base', 'layout') if k in c}
+    case = {k: c[k] for k in ('set', 'atoms', 'stack', 'kind', 'prefix', 'variant', 'sequence', 'late_error', 'alias', 'integration', 'base', 'layout', 'first') if k in c}
     run_case(case, rec)
     ctx = Ctx('C16', 'quick', 0, 1)
     ctx.rec = rec
